@@ -564,6 +564,11 @@ func (c *SpecCtx) selector(n *ast.SelectorExpr) SV {
 			return SV{V: nr, T: types.NewPointer(f.Type())}
 		}
 		v := e.readLoc(c.st, reg, f.Type(), base)
+		if vt, ok := v.(T); ok {
+			if _, known := e.loaded[vt.S]; !known {
+				e.loaded[vt.S] = &Addr{Kind: AField, Region: reg, Ref: base, FieldT: f.Type(), FName: f.Name()}
+			}
+		}
 		return SV{V: v, T: f.Type()}
 	}
 	// ghost field declared in the type block
